@@ -191,6 +191,7 @@ def run_dm(ctx, case):
     ctx.close(rho2, rho, 1e-10, 'Bloch vector round trip')
     ctx.close(rin, rho, 0, 'Bloch-vector routines do not modify the state they are given')
     nrm = gm.dm_to_gellmann_norm(ref.with_layout(rho, layout))
+    ctx.close(gm.dm_to_gellmann_norm(rin), np.linalg.norm(b_ref[..., :-1], axis=-1), 1e-10, 'Gell-Mann norm = |Bloch vector| (input as handed over: numpy or torch)')
     ctx.close(nrm, np.linalg.norm(b_ref[..., :-1], axis=-1), 1e-10, 'Gell-Mann norm = |Bloch vector|')
     # unnormalised Hermitian input: the norm ignores the trace part
     if len(shape) == 0:
